@@ -205,6 +205,8 @@ struct St {
     /// claimed the token: only then can it be a member of the ring ("not ready until ...").
     verified: bool,
     las_model: LasModel,
+    /// Last GAP poll outside a claim scan: (address, visit number).
+    last_gap_target: Option<(u8, u64)>,
 }
 
 pub struct GapMonitor {
@@ -252,6 +254,7 @@ impl GapMonitor {
                     last_valid_activity: 0,
                     verified: false,
                     las_model: LasModel::default(),
+                    last_gap_target: None,
                 })
                 .collect(),
             holder: None,
@@ -275,6 +278,7 @@ impl GapMonitor {
         s.polls_in_visit = 0;
         s.next_token_to = None;
         s.scan_polled = None;
+        s.last_gap_target = None;
     }
 
     fn new_epoch(s: &mut St, ns: u8) {
@@ -300,6 +304,7 @@ impl Monitor for GapMonitor {
             s.awaiting = None;
             s.next_token_to = None;
             s.witness.reset();
+            s.last_gap_target = None;
             s.verified = false;
             s.las_model = LasModel::new(_w.stations[st].cfg.addr);
             s.asked_by = None;
@@ -453,6 +458,7 @@ impl Monitor for GapMonitor {
                     let silence = tx.start.saturating_sub(s.last_valid_activity);
                     if *da == ts && silence + tol >= timeout {
                         s.verified = true;
+                        s.last_gap_target = None;
                         s.claim_phase = true;
                         s.claim_tokens = 0;
                         s.epoch_ns = None;
@@ -717,6 +723,28 @@ impl Monitor for GapMonitor {
                     v.push(target);
                 }
             } else {
+                // sweep order: the next poll continues behind the previous one; starting over at
+                // TS+1 is only possible after the pause of G token visits (the station never
+                // abandons a sweep half-way just because its successor changed)
+                let gapf = u64::from(w.stations[i].cfg.gap);
+                let rank = |x: u8| (u16::from(x) + u16::from(hsa) - u16::from(ts) - 1) % u16::from(hsa.max(1));
+                if let Some((prev, pv)) = s.last_gap_target {
+                    if prev < hsa && target < hsa && rank(target) <= rank(prev) && (s.visit + 1).saturating_sub(pv) <= gapf {
+                        w.violate(
+                            self.prop,
+                            "gap.order",
+                            "sweep-restarted-without-pause",
+                            Some(ts),
+                            format!(
+                                "#{ts} (NS #{}, HSA {hsa}, gap factor {gapf}) polled #{prev} and only {} token visit(s) later polls #{target}: the sweep starts over without having paused",
+                                snap.ns,
+                                (s.visit + 1).saturating_sub(pv)
+                            ),
+                        );
+                        return;
+                    }
+                }
+                s.last_gap_target = Some((target, s.visit + 1));
                 s.polls_in_visit += 1;
                 if s.polls_in_visit > 1 {
                     w.violate(
